@@ -196,6 +196,8 @@ def judge(case, res):
     initialized = False       # has this process already checked the database (clean version parse since reload)
     fault_since = False       # a models-breaking fault happened while initialized, no reload since
     clean = True
+    cur_ver = 0
+    parsed_under = set()      # (text, version) pairs parsed so far with caching enabled
     none_injected = set()
     for i, (op, ob) in enumerate(zip(case["ops"], res["obs"])):
         k = op[0]
@@ -203,6 +205,7 @@ def judge(case, res):
             initialized, fault_since = False, False
         elif k == "setver":
             clean = not op[2]
+            cur_ver = op[1]
         elif (k, op[1]) in BREAKING and k in ("layout", "file"):
             if initialized:
                 fault_since = True
@@ -221,6 +224,11 @@ def judge(case, res):
                         % (i, {"tree": "the same tree", "none": "None", "other": "a DIFFERENT tree/object"}[got],
                            {"tree": "a tree", "none": "None"}[want]), i)
             if clean:
+                if got == "tree" and ob.get("fresh_calls") == 0 and (op[1], cur_ver) not in parsed_under:
+                    return ("served-without-being-stored", "op %d: text %d was served from the cache under version %d "
+                            "although it was never parsed under that version in this history (entry of another "
+                            "version or text served)" % (i, op[1], cur_ver), i)
+                parsed_under.add((op[1], cur_ver))
                 initialized, fault_since = True, False
         st = ob.get("store")
         if isinstance(st, list):
